@@ -1,4 +1,5 @@
 import Gonuts.Lemmas.SpecDeriv
+import Gonuts.Lemmas.SpecShaConsts
 import Gonuts.Spec.SelfTest
 /-!
 # C11 — derivations match the Cashu spec
@@ -240,6 +241,21 @@ theorem mintKeys_spec (M : Nat → Point → Point) (seed : Bytes) (idx : Nat) (
   rw [ha]
   decide
 
+/-- The id of a generated keyset is the same whatever order its 60 (amount, public key) pairs are enumerated in —
+`GenerateKeyset` collects them in a Go map before calling `DeriveKeysetId`. -/
+theorem mintKeys_id_order_independent (M : Nat → Point → Point) (seed : Bytes) (idx : Nat) (keys keys' : List MintKeys.Key)
+    (h : MintKeys.mintKeys M seed idx = some keys) (hp : keys.Perm keys') :
+    MintKeys.keysetIdOf keys = MintKeys.keysetIdOf keys' :=
+  MintKeys.keysetIdOf_perm hp (mintKeys_spec M seed idx keys h).2.2.2.1
+
+/-- More generally, for keys given as points: rearranging a key set with distinct amounts does not change its id. -/
+theorem keysetIdOfPoints_perm (l l' : List (Nat × Point)) (hp : l.Perm l') (hd : (l.map (·.1)).Nodup) :
+    KeysetId.keysetIdOfPoints l = KeysetId.keysetIdOfPoints l' :=
+  KeysetId.keysetIdOfPoints_perm hp hd
+
+example : KeysetId.keysetIdOfPoints [(1, G), (2, Point.aff Gx (p - Gy))] = KeysetId.keysetIdOfPoints [(2, Point.aff Gx (p - Gy)), (1, G)] :=
+  keysetIdOfPoints_perm _ _ (List.Perm.swap _ _ _) (by decide)
+
 /-! ## hash and MAC output lengths -/
 
 /-- SHA-256 gives 32 bytes, SHA-512 and HMAC-SHA512 give 64 bytes, for every input; the padded messages are
@@ -251,6 +267,25 @@ theorem hash_output_lengths :
   ⟨sha256_length, sha512_length, hmacSha512_length,
    fun m => ⟨Sha256.pad_length_mod m, Sha256.pad_length_bounds m⟩,
    fun m => ⟨Sha512.pad_length_mod m, Sha512.pad_length_bounds m⟩⟩
+
+/-- The SHA-2 round constants and initial hash values of the reference are the numbers FIPS 180-4 defines:
+the first 32 (SHA-256) / 64 (SHA-512) bits of the fractional parts of the cube roots of the first 64 / 80 primes,
+and of the square roots of the first 8 primes (each table entry is checked to be the low bits of the floor root). -/
+theorem sha_constants :
+    (ShaConsts.primesBelow 312).length = 64 ∧ (ShaConsts.primesBelow 410).length = 80 ∧
+    ShaConsts.allFrac 3 32 (ShaConsts.primesBelow 312) (Sha256.K.toList.map UInt32.toNat) = true ∧
+    ShaConsts.allFrac 3 64 (ShaConsts.primesBelow 410) (Sha512.K.toList.map UInt64.toNat) = true ∧
+    ShaConsts.allFrac 2 32 ((ShaConsts.primesBelow 312).take 8)
+      ([Sha256.init.a, Sha256.init.b, Sha256.init.c, Sha256.init.d, Sha256.init.e, Sha256.init.f, Sha256.init.g,
+        Sha256.init.h].map UInt32.toNat) = true ∧
+    ShaConsts.allFrac 2 64 ((ShaConsts.primesBelow 410).take 8)
+      ([Sha512.init.a, Sha512.init.b, Sha512.init.c, Sha512.init.d, Sha512.init.e, Sha512.init.f, Sha512.init.g,
+        Sha512.init.h].map UInt64.toNat) = true :=
+  ⟨ShaConsts.primes64, ShaConsts.primes80, ShaConsts.sha256_K, ShaConsts.sha512_K, ShaConsts.sha256_H0, ShaConsts.sha512_H0⟩
+
+-- 2 is the first prime and 0x428a2f98 the first 32 fractional bits of its cube root; a wrong entry is rejected
+example : ShaConsts.isFrac 3 32 2 0x428a2f98 = true ∧ ShaConsts.isFrac 3 32 2 0x428a2f99 = false ∧
+    (ShaConsts.primesBelow 312).take 5 = [2, 3, 5, 7, 11] := by decide +kernel
 
 /-- SEC 2 parameters: `p = 2^256 − 2^32 − 977 ≡ 3 (mod 4)`, `n < p < 2^256`, the base point is on the curve;
 a parsed octet string is always a finite point of the curve. -/
